@@ -1,3 +1,4 @@
+mod check;
 mod mon;
 mod model;
 mod rng;
